@@ -147,7 +147,9 @@ class _ThreadingShim(object):
 def scratch_root():
     global _scratch_root
     if _scratch_root is None or not os.path.isdir(_scratch_root):
-        _scratch_root = tempfile.mkdtemp(prefix="odmlverif-%d-" % os.getpid(), dir="/tmp")
+        # tmpfs when there is one: many small files are created and removed per case
+        parent = os.environ.get("VERIF_SCRATCH") or ("/dev/shm" if os.access("/dev/shm", os.W_OK) else "/tmp")
+        _scratch_root = tempfile.mkdtemp(prefix="odmlverif-%d-" % os.getpid(), dir=parent)
         root = _scratch_root
         pid = os.getpid()
 
